@@ -36,20 +36,23 @@ Section Rsa.
   Variable parse_pkix : DER -> option (pubkey K).
   Variable pkcs1v15 : K -> halg -> D -> list N -> bool.
 
-  (* err == nil *)
+  (* what the expected statement list means (err == nil) — also what the property understands by
+     "verifies under the configured key": used by the validators, whatever the source says *)
+  Definition rsa_verify_digest_meaning (kb : KB) (a : halg) (d : D) (sig : list N) : bool :=
+    if negb (digest_fits a d) then false
+    else match pem_first_block kb with
+         | None => false
+         | Some der =>
+             match parse_pkix der with
+             | None => false
+             | Some PubOther => false
+             | Some (PubRSA k) => pkcs1v15 k a d sig
+             end
+         end.
+
+  (* the model of the function as the source has it on this run *)
   Definition rsa_verify_digest (kb : KB) (a : halg) (d : D) (sig : list N) : bool :=
-    if rsa_steps_known then
-      if negb (digest_fits a d) then false
-      else match pem_first_block kb with
-           | None => false
-           | Some der =>
-               match parse_pkix der with
-               | None => false
-               | Some PubOther => false
-               | Some (PubRSA k) => pkcs1v15 k a d sig
-               end
-           end
-    else true.
+    if rsa_steps_known then rsa_verify_digest_meaning kb a d sig else true.
 
   (* the key file is a PKIX RSA public key in its first PEM block *)
   Definition pkix_rsa_key (kb : KB) : option K :=
